@@ -48,17 +48,8 @@ Ltac unfold_params :=
   cbn [p_recv_length p_recv_over p_recv_over_ops p_frame_tag p_frame_cases p_frame_default
        p_send_drop p_send_header p_send_ops spec_params gen_params].
 
-Lemma skipn_0_nat : forall (l : list Z), skipn (Z.to_nat 0) l = l.
-Proof. reflexivity. Qed.
-
-Lemma firstn_0_nat : forall (l : list Z), firstn (Z.to_nat 0) l = [].
-Proof. reflexivity. Qed.
-
-Section Generic.
-  (** the proof script below is run twice: on the reference instance and on
-      the generated one *)
-End Generic.
-
+(** the proof script below is run twice: on the reference instance and on
+    the generated one *)
 Ltac prove_recv_ok len_lemma :=
   constructor;
   [ (* ro_length *)
